@@ -674,30 +674,38 @@ pub fn has_divergent_piece(m: &M) -> bool {
 // Skeleton equality (C05, second sentence): the elaborated term is the source term with holes and
 // omitted annotations filled in; nothing else is rewritten, reordered, duplicated or dropped.
 pub fn skeleton_mismatch(source: &M, elab: &M) -> Option<String> {
+    skeleton_mismatch_with(source, elab, false)
+}
+
+// `printed`: the second term was read back from printed text, which does not show the names of
+// function-type parameters that are not used (so those names, and the names carried by variable
+// occurrences, are not compared; indices, implicitness and everything else are).
+pub fn skeleton_mismatch_with(source: &M, elab: &M, printed: bool) -> Option<String> {
     match (source, elab) {
         (M::Hole(..), _) => None,
         (M::Type, M::Type) | (M::Int, M::Int) | (M::Bool, M::Bool) | (M::True, M::True) | (M::False, M::False) => None,
         (M::Lit(a), M::Lit(b)) if a == b => None,
-        (M::Var(n, i), M::Var(m, j)) if i == j && n == m => None,
+        (M::Var(n, i), M::Var(m, j)) if i == j && (printed || n == m) => None,
+        (M::Pi(_, i, a1, b1), M::Pi(_, j, a2, b2)) if printed && i == j => skeleton_mismatch_with(a1, a2, printed).or_else(|| skeleton_mismatch_with(b1, b2, printed)),
         (M::Lam(n, i, a1, b1), M::Lam(m, j, a2, b2)) | (M::Pi(n, i, a1, b1), M::Pi(m, j, a2, b2)) if n == m && i == j => {
-            skeleton_mismatch(a1, a2).or_else(|| skeleton_mismatch(b1, b2))
+            skeleton_mismatch_with(a1, a2, printed).or_else(|| skeleton_mismatch_with(b1, b2, printed))
         }
-        (M::App(a1, b1), M::App(a2, b2)) => skeleton_mismatch(a1, a2).or_else(|| skeleton_mismatch(b1, b2)),
-        (M::Bin(o, a1, b1), M::Bin(p, a2, b2)) if o == p => skeleton_mismatch(a1, a2).or_else(|| skeleton_mismatch(b1, b2)),
+        (M::App(a1, b1), M::App(a2, b2)) => skeleton_mismatch_with(a1, a2, printed).or_else(|| skeleton_mismatch_with(b1, b2, printed)),
+        (M::Bin(o, a1, b1), M::Bin(p, a2, b2)) if o == p => skeleton_mismatch_with(a1, a2, printed).or_else(|| skeleton_mismatch_with(b1, b2, printed)),
         (M::Let(d1, b1), M::Let(d2, b2)) if d1.len() == d2.len() => {
             for ((n, a, d), (m, c, e)) in d1.iter().zip(d2) {
                 if n != m {
                     return Some(format!("definition {n} became {m}"));
                 }
-                if let Some(x) = skeleton_mismatch(a, c).or_else(|| skeleton_mismatch(d, e)) {
+                if let Some(x) = skeleton_mismatch_with(a, c, printed).or_else(|| skeleton_mismatch_with(d, e, printed)) {
                     return Some(x);
                 }
             }
-            skeleton_mismatch(b1, b2)
+            skeleton_mismatch_with(b1, b2, printed)
         }
-        (M::Neg(a), M::Neg(b)) => skeleton_mismatch(a, b),
+        (M::Neg(a), M::Neg(b)) => skeleton_mismatch_with(a, b, printed),
         (M::If(a1, b1, c1), M::If(a2, b2, c2)) => {
-            skeleton_mismatch(a1, a2).or_else(|| skeleton_mismatch(b1, b2)).or_else(|| skeleton_mismatch(c1, c2))
+            skeleton_mismatch_with(a1, a2, printed).or_else(|| skeleton_mismatch_with(b1, b2, printed)).or_else(|| skeleton_mismatch_with(c1, c2, printed))
         }
         (s, e) => Some(format!("source has {} where the elaborated term has {}", s.show(), e.show())),
     }
